@@ -143,7 +143,9 @@ def coq_make(targets, timeout=1500):
         if rc == 0:
             return True, "up to date"
     with Lock("coq"):
-        rc, out = sh(["make", "-f", "Makefile.gen", f"-j{NCPU}"] + list(targets), cwd=COQ, timeout=timeout)
+        # no single file may hold the lock for long: every coqc is capped (a proof that needs
+        # more than this must be split or moved out of the quick path)
+        rc, out = sh(["make", "-f", "Makefile.gen", f"-j{NCPU}", "COQC=timeout 420 coqc"] + list(targets), cwd=COQ, timeout=timeout)
         return rc == 0, out
 
 
